@@ -481,6 +481,50 @@ Theorem c17_poll_fin_after_data :
     v_state s = FinWait1 f \/ FAD s' \/ (v_inbox_closed s = true /\ r = PollReadyErr ErrSend).
 Proof. exact (poll_FAD cci). Qed.
 
+(* (e) trace level: a RESET delivered alone past the handshake ends the connection in the very next poll
+   (c17_reset_trace_ok = reset_scan from Some []), along every trace from vsock_new *)
+Theorem c17_reset_trace_ok_trace :
+  forall mk cfg (s0 : vsock) ops,
+  vsock_new cci mk cfg = Some s0 -> c17_reset_trace_ok cfg (ftrace cci s0 ops) = true.
+Proof. exact (C17_Step.c17_reset_trace_ok_trace cci). Qed.
+
+(* the same from any state with an empty, open inbox *)
+Theorem c17_reset_trace_ok_trace_pre :
+  forall cfg ops (s : vsock),
+  v_inbox s = [] -> v_inbox_closed s = false -> c17_reset_trace_ok cfg (ftrace cci s ops) = true.
+Proof. exact (C17_Step.c17_reset_trace_ok_trace_pre cci). Qed.
+
+(* (e) what the walk rests on: a non-acknowledging reset at the head of the inbox is reported at once with
+   nothing on the wire (no liveness hypothesis on the receive half, unlike c17_reset) *)
+Theorem c17_reset_err_poll_out :
+  forall (s : vsock) script m rest,
+  past_handshake (v_state s) = true -> immediate_ack_to_transmit s = false ->
+  v_inbox s = m :: rest -> ch_type (m_hdr m) = ST_RESET ->
+  (forall f r, v_state s = LastAck f r -> ch_ack (m_hdr m) <> f) ->
+  exists s', poll cci (set_sends s script) = (s', PollReadyErr ErrStResetReceived) /\ v_out s' = [].
+Proof. exact (reset_err_poll_out cci). Qed.
+
+(* (e) a reset that acknowledges our FIN in LastAck leaves the connection Closed when the poll returns *)
+Theorem c17_reset_ack_poll :
+  forall (s : vsock) script m rest f r0 s' r,
+  immediate_ack_to_transmit s = false ->
+  v_inbox s = m :: rest -> ch_type (m_hdr m) = ST_RESET ->
+  v_state s = LastAck f r0 -> ch_ack (m_hdr m) = f ->
+  poll cci (set_sends s script) = (s', r) -> r = PollPanic \/ v_state s' = Closed.
+Proof. exact (reset_ack_poll cci). Qed.
+
+(* a poll that returns Pending with a writable transport has drained the inbox and is not closed *)
+Theorem c17_poll_pending_drained :
+  forall (s s' : vsock),
+  poll cci s = (s', PollPending) -> v_transport_pending s' = false -> v_inbox s' = [].
+Proof. exact (poll_pending_drained cci). Qed.
+
+Theorem c17_poll_pending_not_closed :
+  forall (s s' : vsock),
+  poll cci s = (s', PollPending) -> v_transport_pending s' = false ->
+  state_is_closed (v_state s') (o_wait_for_last_ack (v_opts s')) = false.
+Proof. exact (poll_pending_not_closed cci). Qed.
+
 End StepLevel.
 
 (* counterexample: c17_fin_after_data_ok is false of the model (channel closed, FIN refused by the transport) *)
@@ -531,3 +575,9 @@ Print Assumptions c17_fin_after_data_refuted_shape.
 Print Assumptions c17_fin_after_data_guard_satisfiable.
 Print Assumptions c17_synack_ok_negative_limit_refuted.
 Print Assumptions c17_synack_handshake_reachable.
+Print Assumptions c17_reset_trace_ok_trace.
+Print Assumptions c17_reset_trace_ok_trace_pre.
+Print Assumptions c17_reset_err_poll_out.
+Print Assumptions c17_reset_ack_poll.
+Print Assumptions c17_poll_pending_drained.
+Print Assumptions c17_poll_pending_not_closed.
